@@ -270,7 +270,14 @@ def run_case(case, opts):
                      for n, a in plan]
             h = fresh("r")
             try:
-                triplets = exporter[allow].parse_plan(rprob, action_sequence=lines)
+                if rng.random() < 0.5:
+                    triplets = exporter[allow].parse_plan(rprob, action_sequence=lines)
+                else:       # the same plan given as a file
+                    pp = pylib.write_tmp("".join(x if x.endswith("\n") else x + "\n" for x in lines), ".plan")
+                    try:
+                        triplets = exporter[allow].parse_plan(rprob, plan_path=pp)
+                    finally:
+                        os.unlink(pp)
                 runs[h] = triplets
                 run_prob[h] = rprob
                 ev.append({"c": "RunPlan", "h": h, "d": "d", "p": ph, "plan": plan, "allow": allow, "out": {"steps": proj_steps(triplets)}})
@@ -287,8 +294,12 @@ def run_case(case, opts):
             rh = rng.choice(list(runs))
             with_problem = rng.random() < 0.5
             try:
-                text = "".join(TrajectoryExporter.export(runs[rh]))
-                p = pylib.write_tmp(text, ".trajectory")
+                if rng.random() < 0.5:
+                    text = "".join(TrajectoryExporter.export(runs[rh]))
+                    p = pylib.write_tmp(text, ".trajectory")
+                else:       # written by the library itself
+                    p = pylib.write_tmp("", ".trajectory")
+                    exporter[False].export_to_file(runs[rh], p)
                 try:
                     obs = traj_parser(run_prob[rh] if with_problem else None).parse_trajectory(p)
                 finally:
